@@ -953,6 +953,13 @@ func (r *Run) appendOp(st *State, fr *Frame, cc *ssa.CallCommon, args []Val, in 
 	return n
 }
 
+func (r *Run) backingAccessCheck(st *State, fr *Frame, sv *SliceV, in ssa.Instruction) {
+	if sv == nil || sv.Src == nil || sv.Src.Kind != AField {
+		return
+	}
+	r.accessCheck(st, fr, sv.Src, false, in)
+}
+
 func (r *Run) copyOp(st *State, fr *Frame, cc *ssa.CallCommon, args []Val, in ssa.Instruction) Val {
 	e := r.e
 	dstS, ok1 := args[0].(*SliceV)
@@ -962,6 +969,9 @@ func (r *Run) copyOp(st *State, fr *Frame, cc *ssa.CallCommon, args []Val, in ss
 		return e.freshVal(st, types.Typ[types.Int], "copy")
 	}
 	n := Ite(App(SBool, "<=", dstS.Len, srcS.Len), dstS.Len, srcS.Len)
+	// reading the elements of a slice value that still is the backing array of a lock-guarded field is an access to that
+	// field (a header copied under the lock does not carry the lock with it)
+	r.backingAccessCheck(st, fr, srcS, in)
 	if dstS.Org == nil {
 		// destination is a fresh temporary (e.g. make(...)): copy into a value nobody else holds
 		e.fail("copy into slice with unknown origin at %s", e.posOf(in))
